@@ -31,6 +31,22 @@ func c15r1(p *Program, r *Report) {
 	info := g.Info
 	facts := g.GuardFacts()
 	n := 0
+	// the manual-paging flags: the boolean fields of Query that PageState() sets
+	manualFlags := map[string]bool{}
+	ps := r.NeedFunc("(*Query).PageState")
+	if ps != nil {
+		pinfo := ps.Pkg.TypesInfo
+		ast.Inspect(ps.Decl.Body, func(x ast.Node) bool {
+			if as, isAs := x.(*ast.AssignStmt); isAs && len(as.Lhs) == 1 && len(as.Rhs) == 1 {
+				if sel, isSel := ast.Unparen(as.Lhs[0]).(*ast.SelectorExpr); isSel && p.isFieldOf(pinfo, sel, "Query") {
+					if v, isC := pinfo.Types[as.Rhs[0]]; isC && v.Value != nil && v.Value.String() == "true" {
+						manualFlags[sel.Sel.Name] = true
+					}
+				}
+			}
+			return true
+		})
+	}
 	ast.Inspect(fi.Decl.Body, func(x ast.Node) bool {
 		as, ok := x.(*ast.AssignStmt)
 		if !ok || len(as.Lhs) != 1 || !p.isField(info, as.Lhs[0], "Iter", "next") {
@@ -43,7 +59,7 @@ func c15r1(p *Program, r *Report) {
 			if v && strings.HasSuffix(atom, ".morePages()") {
 				more = true
 			}
-			if !v && strings.HasSuffix(atom, ".disableAutoPage") {
+			if i := strings.LastIndex(atom, "."); !v && i > 0 && manualFlags[atom[i+1:]] && isQueryPath(info, fi, atom[:i]) {
 				auto = true
 			}
 		}
@@ -90,19 +106,23 @@ func c15r1(p *Program, r *Report) {
 	if n == 0 {
 		r.Unresolved("executeQuery never assigns Iter.next")
 	}
-	if ps := r.NeedFunc("(*Query).PageState"); ps != nil {
-		pinfo := ps.Pkg.TypesInfo
-		ok := false
-		ast.Inspect(ps.Decl.Body, func(x ast.Node) bool {
-			if as, isAs := x.(*ast.AssignStmt); isAs && len(as.Lhs) == 1 && p.isField(pinfo, as.Lhs[0], "Query", "disableAutoPage") {
-				if v, isC := pinfo.Types[as.Rhs[0]]; isC && v.Value != nil && v.Value.String() == "true" {
-					ok = true
-				}
-			}
-			return true
-		})
-		r.Check(ok, ps.Decl, "(*Query).PageState disables automatic paging", "disableAutoPage = true", "supplying a page state no longer disables automatic paging: more than one page is fetched")
+	if ps != nil {
+		r.Check(len(manualFlags) > 0, ps.Decl, "(*Query).PageState disables automatic paging", "disableAutoPage = true", "supplying a page state no longer disables automatic paging: more than one page is fetched")
 	}
+}
+
+// isQueryPath: the source text names a variable of type *Query / Query of the function.
+func isQueryPath(info *types.Info, fi *FuncInfo, text string) bool {
+	found := false
+	ast.Inspect(fi.Decl, func(n ast.Node) bool {
+		if e, ok := n.(ast.Expr); ok && !found && exprStr(e) == text {
+			if t := info.TypeOf(e); t != nil && typeNameOf(t) == "Query" {
+				found = true
+			}
+		}
+		return !found
+	})
+	return found
 }
 
 func c15r2(p *Program, r *Report) {
@@ -180,8 +200,94 @@ func c15r2(p *Program, r *Report) {
 	r.Check(pageCopied, lit, "(*Conn).executeQuery copies the paging state out of the frame buffer", "copyBytes(...)", "the paging state aliases the frame's read buffer, which is recycled")
 }
 
+// onceBody is a function run through a sync.Once of a nextIter: a literal or a method passed as a method value.
+type onceBody struct {
+	once   *types.Var // the Once field
+	fi     *FuncInfo  // the function containing the body (for a literal: the function that calls Do)
+	body   *ast.BlockStmt
+	lit    *ast.FuncLit
+	method *FuncInfo
+	doIn   *FuncInfo
+}
+
+// nextIterOnceBodies finds every <nextIter>.<once field>.Do(f) in the package.
+func nextIterOnceBodies(p *Program) []onceBody {
+	var out []onceBody
+	p.forEachFunc(false, func(fi *FuncInfo) {
+		info := fi.Pkg.TypesInfo
+		ast.Inspect(fi.Decl.Body, func(x ast.Node) bool {
+			call, ok := x.(*ast.CallExpr)
+			if !ok || !isCallTo(info, call, "sync.(*Once).Do") || len(call.Args) != 1 {
+				return true
+			}
+			rx := recvExpr(call)
+			if rx == nil || !p.isFieldOf(info, rx, "nextIter") {
+				return true
+			}
+			ob := onceBody{once: fieldOf(info, rx), doIn: fi}
+			switch a := ast.Unparen(call.Args[0]).(type) {
+			case *ast.FuncLit:
+				ob.fi, ob.body, ob.lit = fi, a.Body, a
+			case *ast.SelectorExpr:
+				if fn, isFn := info.Uses[a.Sel].(*types.Func); isFn {
+					if m := p.FuncOf(fn); m != nil && m.Decl.Body != nil {
+						ob.fi, ob.body, ob.method = m, m.Decl.Body, m
+					}
+				}
+			}
+			if ob.body != nil {
+				out = append(out, ob)
+			}
+			return true
+		})
+	})
+	return out
+}
+
 func c15r3(p *Program, r *Report) {
 	n := 0
+	bodies := nextIterOnceBodies(p)
+	// the page slot: the *Iter field(s) of nextIter
+	pageFields := p.fieldsTyped("nextIter", func(t types.Type) bool {
+		pt, ok := t.(*types.Pointer)
+		return ok && typeNameOf(pt.Elem()) == "Iter"
+	})
+	isPage := func(info *types.Info, e ast.Expr) bool {
+		fv := fieldOf(info, e)
+		for _, f := range pageFields {
+			if fv != nil && fv == f {
+				return true
+			}
+		}
+		return false
+	}
+	// a method run through a Once must not be callable any other way
+	onlyThroughOnce := func(m *FuncInfo) bool {
+		ok := true
+		p.forEachFunc(false, func(fi *FuncInfo) {
+			info := fi.Pkg.TypesInfo
+			ast.Inspect(fi.Decl.Body, func(x ast.Node) bool {
+				switch y := x.(type) {
+				case *ast.CallExpr:
+					if calleeOf(info, y) == m.Obj {
+						ok = false
+					}
+					if isCallTo(info, y, "sync.(*Once).Do") {
+						return false // the method value handed to Do
+					}
+				case *ast.SelectorExpr:
+					if info.Uses[y.Sel] == types.Object(m.Obj) {
+						if pc, isCall := p.Parent(y).(*ast.CallExpr); !isCall || ast.Unparen(pc.Fun) != ast.Expr(y) {
+							ok = false // another method value
+						}
+					}
+				}
+				return true
+			})
+		})
+		return ok
+	}
+	var storeOnce *types.Var
 	p.forEachFunc(false, func(fi *FuncInfo) {
 		info := fi.Pkg.TypesInfo
 		ast.Inspect(fi.Decl.Body, func(x ast.Node) bool {
@@ -190,59 +296,74 @@ func c15r3(p *Program, r *Report) {
 				return true
 			}
 			for _, l := range as.Lhs {
-				if !p.isField(info, l, "nextIter", "next") {
+				if !isPage(info, l) {
 					continue
 				}
 				n++
-				lit, _ := p.enclosingFuncNode(as).(*ast.FuncLit)
 				okOnce := false
-				if lit != nil {
-					if call, ok := p.Parent(lit).(*ast.CallExpr); ok && isCallTo(info, call, "sync.(*Once).Do") {
-						if rx := recvExpr(call); rx != nil && p.isField(info, rx, "nextIter", "once") {
-							okOnce = true
-						}
+				lit, _ := p.enclosingFuncNode(as).(*ast.FuncLit)
+				for _, ob := range bodies {
+					if lit != nil && ob.lit == lit {
+						okOnce, storeOnce = true, ob.once
+					}
+					if lit == nil && ob.method == fi && onlyThroughOnce(fi) {
+						okOnce, storeOnce = true, ob.once
 					}
 				}
-				r.Check(okOnce, as, fi.Name+" stores the fetched page inside once.Do", "the page is fetched at most once", "nextIter.next is assigned outside its sync.Once: prefetch and the consumer can both fetch the page (rows delivered twice) or see a half-written value")
+				r.Check(okOnce, as, fi.Name+" stores the fetched page inside once.Do", "the page is fetched at most once", "the nextIter's page is assigned outside its sync.Once: prefetch and the consumer can both fetch the page (rows delivered twice) or see a half-written value")
 			}
 			return true
 		})
 	})
 	if n == 0 {
-		r.Unresolved("nextIter.next is never assigned")
+		r.Unresolved("the nextIter's page slot is never assigned")
 	}
 	if fa := r.NeedFunc("(*nextIter).fetchAsync"); fa != nil {
 		info := fa.Pkg.TypesInfo
 		ok := false
-		ast.Inspect(fa.Decl.Body, func(x ast.Node) bool {
-			gs, isGo := x.(*ast.GoStmt)
-			if !isGo || !isCallTo(info, gs.Call, "(*nextIter).fetch") {
-				return true
+		for _, ob := range bodies {
+			if ob.doIn != fa {
+				continue
 			}
-			if lit, isLit := p.enclosingFuncNode(gs).(*ast.FuncLit); isLit {
-				if call, isCall := p.Parent(lit).(*ast.CallExpr); isCall && isCallTo(info, call, "sync.(*Once).Do") {
+			if ob.method != nil && !onlyThroughOnce(ob.method) {
+				continue
+			}
+			ast.Inspect(ob.body, func(x ast.Node) bool {
+				if gs, isGo := x.(*ast.GoStmt); isGo && isCallTo(info, gs.Call, "(*nextIter).fetch") && (storeOnce == nil || ob.once != storeOnce) {
 					ok = true
 				}
-			}
-			return true
-		})
-		r.Check(ok, fa.Decl, "(*nextIter).fetchAsync spawns fetch once", "go n.fetch() inside oncea.Do", "fetchAsync does not start the prefetch exactly once through its sync.Once")
+				return true
+			})
+		}
+		r.Check(ok, fa.Decl, "(*nextIter).fetchAsync spawns fetch once", "go n.fetch() inside oncea.Do", "fetchAsync does not start the prefetch exactly once through its own sync.Once")
 	}
 	if f := r.NeedFunc("(*nextIter).fetch"); f != nil {
 		info := f.Pkg.TypesInfo
 		// the query executed is the nextIter's own
 		ok := true
-		ast.Inspect(f.Decl.Body, func(x ast.Node) bool {
-			c, isCall := x.(*ast.CallExpr)
-			if !isCall || !strings.HasSuffix(calleeName(info, c), ".executeQuery") {
+		type unit struct {
+			fi   *FuncInfo
+			body ast.Node
+		}
+		units := []unit{{f, f.Decl.Body}}
+		for _, ob := range bodies {
+			if ob.doIn == f && ob.method != nil {
+				units = append(units, unit{ob.method, ob.body})
+			}
+		}
+		for _, u := range units {
+			ast.Inspect(u.body, func(x ast.Node) bool {
+				c, isCall := x.(*ast.CallExpr)
+				if !isCall || !strings.HasSuffix(calleeName(info, c), ".executeQuery") {
+					return true
+				}
+				last := c.Args[len(c.Args)-1]
+				if _, re := p.resolveValue(u.fi, last, 0); !(p.isFieldOf(info, re, "nextIter") && typeNameOf(info.TypeOf(re)) == "Query") {
+					ok = false
+				}
 				return true
-			}
-			last := c.Args[len(c.Args)-1]
-			if _, re := p.resolveValue(f, last, 0); !p.isField(info, re, "nextIter", "qry") {
-				ok = false
-			}
-			return true
-		})
+			})
+		}
 		r.Check(ok, f.Decl, "(*nextIter).fetch executes the stored next-page query", "n.qry", "fetch executes a query other than the one stored for this page")
 	}
 }
